@@ -463,7 +463,7 @@ def gen_random(rng, count, tiny_share=0.3):
     while made < count:
         nd, np_ = rng.randint(2, 6), rng.randint(2, 6)
         zero = rng.choice([0, 0.1, 0.25, 0.5])
-        mode = 'tiny' if rng.random() < tiny_share else rng.choice(['mid', 'large', 'mixed'])
+        mode = 'tiny' if rng.random() < tiny_share else rng.choice(['mid', 'large', 'mixed', 'huge'])
         sparse = rng.random() < 0.3
 
         def cnt():
@@ -474,6 +474,8 @@ def gen_random(rng, count, tiny_share=0.3):
                 return rng.randint(0, 3)
             if m == 'mid':
                 return rng.randint(1, 300)
+            if m == 'huge':     # counts whose quotients do not fit 12-digit denominators or 53-bit mantissas
+                return rng.choice([10 ** 12, 10 ** 15, 10 ** 30]) * rng.randint(1, 9) + rng.randint(0, 10 ** 6)
             return 10 ** 6 + rng.randint(0, 10 ** 5)
         votes = [[d, [[p, cnt()] for p in range(1, np_ + 1)]] for d in range(1, nd + 1)]
         if not any(v for _, row in votes for _, v in row):
